@@ -158,9 +158,11 @@ def run_case(spec):
         for l in nm.splitlines():
             p = l.split()
             if len(p) == 3 and 'zq_' in p[2]:
-                syms.append((demangle_legacy(p[2]), int(p[0], 16)))
+                syms.append((demangle_legacy(p[2]) or p[2], int(p[0], 16)))
         regexes = ['zq_f', r'zq_f::h', r'::zq_b::zq_f::', r'zq_gen', r'^' + crate + r'::zq_a::zq_f::', r'zq_x[ab]', r'zq_in_file', r'zq_nope',
-                   r'zq_a::zq_b::zq_a', r'zq_(top|g)::', r'zq_gen2::h[0-9a-f]+$', r'zq_b_f']
+                   r'zq_a::zq_b::zq_a', r'zq_(top|g)::', r'zq_gen2::h[0-9a-f]+$', r'zq_b_f',
+                   # thread-locals, plain and exported data objects
+                   r'zq_tls', r'zq_tls_depth', r'zq_static', r'^zq_static_exported$']
         for rx in regexes:
             cre = re.compile(rx)
             expected = sorted(a for (n, a) in syms if cre.search(n))
